@@ -562,6 +562,29 @@ fn verif_next_id() -> usize {
     NEXT.fetch_add(1, Ordering::SeqCst)
 }
 
+/// Emits the candidate groups left after a grouping stage (verification hook).
+#[cfg(fclones_verif)]
+fn verif_stage_done(stage: &str, groups: &[FileGroup<FileInfo>]) {
+    if !crate::verif::enabled() {
+        return;
+    }
+    let groups = groups
+        .iter()
+        .map(|g| {
+            format!(
+                "{{\"len\":{},\"hash\":\"{}\",\"files\":[{}]}}",
+                g.file_len.0,
+                g.file_hash,
+                g.files.iter().map(|f| crate::verif::jpath(&f.path)).join(",")
+            )
+        })
+        .join(",");
+    crate::verif::emit(
+        "StageDone",
+        &format!("\"stage\":\"{stage}\",\"groups\":[{groups}]"),
+    );
+}
+
 /// Groups files by length and hash computed by given `hash_fn`.
 /// Runs in parallel on dedicated thread pools.
 /// Files on different devices are hashed separately from each other.
@@ -1150,6 +1173,14 @@ fn group_by_suffix(
         .max_suffix_size
         .unwrap_or_else(|| suffix_len(&ctx.devices, flat_iter(&groups)));
     let suffix_threshold = suffix_threshold(&ctx.devices, flat_iter(&groups));
+    #[cfg(fclones_verif)]
+    crate::verif::emit(
+        "GroupParams",
+        &format!(
+            "\"suffix_len\":{},\"suffix_threshold\":{}",
+            suffix_len.0, suffix_threshold.0
+        ),
+    );
     let pre_filter =
         |g: &FileGroup<FileInfo>| g.file_len >= suffix_threshold && g.unique_count() > 1;
     let file_count = unique_file_count(groups.iter().filter(|g| pre_filter(g)));
@@ -1304,14 +1335,24 @@ pub fn group_files(config: &GroupConfig, log: &dyn Log) -> Result<Vec<FileGroup<
         }
         _ => {
             let size_groups = group_by_size(&ctx, matching_files);
+            #[cfg(fclones_verif)]
+            verif_stage_done("size", &size_groups);
             let mut size_groups_pruned = remove_same_files(&ctx, size_groups);
+            #[cfg(fclones_verif)]
+            verif_stage_done("paths", &size_groups_pruned);
             update_file_locations(&ctx, &mut size_groups_pruned);
             let prefix_len = ctx
                 .config
                 .max_prefix_size
                 .unwrap_or_else(|| prefix_len(&ctx.devices, flat_iter(&size_groups_pruned)));
+            #[cfg(fclones_verif)]
+            crate::verif::emit("GroupParams", &format!("\"prefix_len\":{}", prefix_len.0));
             let prefix_groups = group_by_prefix(&ctx, prefix_len, size_groups_pruned);
+            #[cfg(fclones_verif)]
+            verif_stage_done("prefix", &prefix_groups);
             let suffix_groups = group_by_suffix(&ctx, prefix_groups);
+            #[cfg(fclones_verif)]
+            verif_stage_done("suffix", &suffix_groups);
             if !ctx.config.skip_content_hash {
                 group_by_contents(&ctx, prefix_len, suffix_groups)
             } else {
@@ -1324,6 +1365,8 @@ pub fn group_files(config: &GroupConfig, log: &dyn Log) -> Result<Vec<FileGroup<
             }
         }
     };
+    #[cfg(fclones_verif)]
+    verif_stage_done("done", &groups);
     groups.par_sort_by_key(|g| Reverse((g.file_len, g.file_hash.u128_prefix())));
     groups
         .par_iter_mut()
